@@ -79,6 +79,12 @@ def shard_main(argv):
     with open(out, "w") as f:
         json.dump(res, f)
     sys.stdout.flush()
+    try:
+        from .gen import programs
+
+        programs.cleanup()  # atexit does not run below: remove the scratch package of generated source files here
+    except Exception:  # noqa
+        pass
     os._exit(0)  # no lingering threads / atexit of the code under test
 
 
